@@ -882,7 +882,14 @@ func main() {
 		if err := json.Unmarshal(raw, &probe); err != nil {
 			panic(err)
 		}
-		if _, ok := probe["gseed"]; ok {
+		if _, ok := probe["lops"]; ok {
+			var c LCase
+			if err := json.Unmarshal(raw, &c); err != nil {
+				panic(err)
+			}
+			msgMode(*seed, 0, *out, []LCase{c})
+			return
+		} else if _, ok := probe["gseed"]; ok {
 			var c MCase
 			if err := json.Unmarshal(raw, &c); err != nil {
 				panic(err)
@@ -1003,6 +1010,8 @@ func main() {
 		debondMode(*seed, *n, *out, nil)
 	case "reward":
 		rewardMode(*seed, *n, *out, nil)
+	case "msg":
+		msgMode(*seed, *n, *out, nil)
 	case "muxdebond":
 		muxMode(*seed, *n, *blocks, *out, nil)
 	default:
